@@ -28,6 +28,15 @@ compute_table as coded (`c01.ckpt`, Model/C01Ckpt.lean: stored backtrace tables,
   cost sums lie on both sides of 2^32; the reported cost (or the conflict exception) must be what the wrap-around
   model computes, and below the proved bound `ubAll < UINT_MAX` (theorem `no_overflow`) it must be the true optimum.
   F30: `get_optimal_cost()` came back negative for optima >= 2^31 (cpp.pxd declared `int`), fixes/F30.patch.
+result object (`gen_script`, Model/C01Query.lean `Table.run`, answers through `c01.ckpt` with `queries`): on EVERY generated
+  instance the three public accessors of `whatshap.core.PedigreeDPTable` (get_super_reads, get_optimal_cost,
+  get_optimal_partitioning — there are no others) are called in a random order, each at least once, with repetitions;
+  in ~1/5 of the cases a second table is constructed on the SAME ReadSet and Pedigree objects while the first is alive
+  (same parameters, other recombination costs, or the shared Pedigree's likelihoods ignored), the calls on both are
+  interleaved and one may be destroyed while the other is still queried.  The property predicate is evaluated on the
+  first answers AND on every other combination (cost answer, partition answer, super-read/transmission answer) the
+  client can hold (`other_views`); every single answer is compared with the model's result object (ctx.disagree
+  `c01.queries`).  Corpus / replay cases without `queries` use the classic order (super reads, cost, partition).
 """
 import itertools, json, math
 
@@ -35,7 +44,7 @@ RULE = ("random (Ped)MEC instances: 1-2 unrelated individuals, trios, quartets; 
         "from a hidden truth plus noise, weights 1..40 with many equal weights (ties), trusted genotypes (consistent "
         "or random/conflicting) or phred likelihood triples, recombination costs 0..30, optional read-less columns "
         "via the positions argument, optional variants at positions that are no columns (skipped by the column iterator), "
-        "optional positions=None (columns = covered positions); rejected ReadSets (unsorted, unsorted variants, empty read); long-thin instances for the sqrt(n) checkpointing; stream u32: weights / recombination costs scaled so that cost sums lie around 2^32. Non-trivial = at least two "
+        "optional positions=None (columns = covered positions); rejected ReadSets (unsorted, unsorted variants, empty read); long-thin instances for the sqrt(n) checkpointing; stream u32: weights / recombination costs scaled so that cost sums lie around 2^32; on every instance the result accessors (get_super_reads, get_optimal_cost, get_optimal_partitioning) are called in random order with repetitions, in ~1/5 of the cases on two tables alive at the same time on one ReadSet/Pedigree (interleaved calls, either may be destroyed first). Non-trivial = at least two "
         "reads sharing a column and at least two columns; distinct = distinct serialised instance")
 ASSUMPTIONS = ["optimality of the reported cost is claimed for instances whose cost bound ubAll (all read weights + largest "
                "genotype costs + two recombinations per trio and column) is below UINT_MAX = 2^32-1 (theorem no_overflow); "
@@ -162,7 +171,44 @@ def gen_instance(rng, small=False, long_thin=False):
 # running the implementation
 # ------------------------------------------------------------------------------------------------
 
-def run_impl(inst):
+ACCESSORS = ("sr", "cost", "part")     # get_super_reads, get_optimal_cost, get_optimal_partitioning: every public
+#                                        result accessor of whatshap.core.PedigreeDPTable
+CLASSIC = [["A", "new"], ["A", "sr"], ["A", "cost"], ["A", "part"]]   # the order whatshap's own CLI happens to use
+
+
+def gen_script(rng, inst):
+    """what a client does with the result object(s): a list of steps [table, op], op in new / sr / cost / part / del.
+    Every accessor at least once per table, in random order, with repetitions; with some probability a second table
+    B is constructed on the SAME ReadSet and Pedigree objects (same parameters, or other recombination costs, or the
+    genotype likelihoods of the shared Pedigree ignored) while A is alive, the calls on the two are interleaved, and
+    one of them may be destroyed while the other is still queried.  Returns (script, tableB overrides or None)"""
+    def calls(tb):
+        qs = [rng.choice(ACCESSORS) for _ in range(rng.choice([0, 0, 1, 2, 3, 5]))] + list(ACCESSORS)
+        rng.shuffle(qs)
+        return [[tb, "new"]] + [[tb, q] for q in qs]
+    a = calls("A")
+    if rng.random() < 0.2:
+        a.append(["A", "del"])
+    if rng.random() >= 0.22:
+        return a, None
+    tableB = {}
+    if inst["mode"] == "distrust" and rng.random() < 0.3:
+        tableB = {"mode": "trusted", "geno": [[[None, 0, None] for _ in range(inst["ncols"])] for _ in range(inst["nind"])]}
+    elif inst["trios"] and rng.random() < 0.6:
+        tableB = {"recomb": [rng.choice([0, 0, 1, 5, 17, 30]) for _ in range(inst["ncols"])]}
+    b = calls("B")
+    if rng.random() < 0.5:
+        b.append(["B", "del"])
+    merged, ia, ib = [], 0, 0
+    while ia < len(a) or ib < len(b):
+        if ib >= len(b) or (ia < len(a) and rng.random() < 0.5):
+            merged.append(a[ia]); ia += 1
+        else:
+            merged.append(b[ib]); ib += 1
+    return merged, tableB
+
+
+def run_impl(inst, script=None, tableB=None):
     from whatshap.core import Read, ReadSet, Pedigree, PedigreeDPTable, NumericSampleIds, Genotype, PhredGenotypeLikelihoods
     ids = NumericSampleIds()
     names = [f"ind{i}" for i in range(inst["nind"])]
@@ -190,10 +236,55 @@ def run_impl(inst):
                 rd.add_variant((c + 1) * 10, a, w)
             rd.sort()
         rs.sort()
-    return run_on_readset(inst, rs, ids, names)
+    return run_on_readset(inst, rs, ids, names, script=script, tableB=tableB)
 
 
-def run_on_readset(inst, rs, ids, names, first=False, cost_only=False):
+def query(dp, op, nind):
+    """one accessor call, result in serialisable form"""
+    if op == "cost":
+        return dp.get_optimal_cost()
+    if op == "part":
+        return list(dp.get_optimal_partitioning())
+    superreads, tv = dp.get_super_reads()
+    sr = []
+    for i in range(nind):
+        a, b = list(superreads[i])
+        sr.append([[(v.position // 10 - 1, v.allele) for v in a], [(v.position // 10 - 1, v.allele) for v in b]])
+    return {"superreads": sr, "tau": list(tv)}
+
+
+def first_answers(answers):
+    """the (cost, partition, super reads + transmission vector) a client holds that uses the FIRST answer of each
+    accessor"""
+    out = {}
+    for op, v in answers:
+        if op == "cost":
+            out.setdefault("cost", v)
+        elif op == "part":
+            out.setdefault("partition", v)
+        elif "tau" not in out:
+            out["tau"], out["superreads"] = v["tau"], v["superreads"]
+    return out
+
+
+def other_views(answers, limit=7):
+    """every OTHER combination of (cost answer, partition answer, super-read answer) a client can hold after the calls:
+    [] when each accessor answered the same every time.  [(note, view)]"""
+    by = {"cost": [], "part": [], "sr": []}
+    for n, (op, v) in enumerate(answers):
+        if all(v != w for _, w in by[op]):
+            by[op].append((n, v))
+    out = []
+    for (i, c), (j, p), (k, s) in itertools.product(by["cost"], by["part"], by["sr"]):
+        if (i, j, k) == (by["cost"][0][0], by["part"][0][0], by["sr"][0][0]):
+            continue
+        out.append((f"cost as answered by accessor call #{i}, partition by call #{j}, super reads / transmission vector "
+                    f"by call #{k} of {[op for op, _ in answers]}",
+                    {"cost": c, "partition": p, "tau": s["tau"], "superreads": s["superreads"]}))
+    return out[:limit]
+
+
+def run_on_readset(inst, rs, ids, names, first=False, cost_only=False, script=None, tableB=None):
     from whatshap.core import Pedigree, PedigreeDPTable, Genotype, PhredGenotypeLikelihoods
     order = [int(rd.name[4:]) for rd in rs]
     ped = Pedigree(ids)
@@ -219,22 +310,42 @@ def run_on_readset(inst, rs, ids, names, first=False, cost_only=False):
             pass
         return None
     raw = readset_raw(rs, {ids[names[i]]: i for i in range(inst["nind"])}, positions, inst)
-    try:
-        dp = PedigreeDPTable(rs, inst["recomb"], ped, distrust, positions)
-        if cost_only:
+    if cost_only:
+        try:
+            dp = PedigreeDPTable(rs, inst["recomb"], ped, distrust, positions)
             return {"cost": dp.get_optimal_cost(), "order": order, "raw": raw}
-        superreads, tv = dp.get_super_reads()
-        cost = dp.get_optimal_cost()
-        part = dp.get_optimal_partitioning()
-    except RuntimeError as e:
-        if "Mendelian conflict" in str(e):
-            return {"error": "mendelian-conflict", "order": order, "raw": raw}
-        raise
-    sr = []
-    for i in range(inst["nind"]):
-        a, b = list(superreads[i])
-        sr.append([[(v.position // 10 - 1, v.allele) for v in a], [(v.position // 10 - 1, v.allele) for v in b]])
-    return {"cost": cost, "partition": part, "tau": list(tv), "superreads": sr, "order": order, "raw": raw}
+        except RuntimeError as e:
+            if "Mendelian conflict" in str(e):
+                return {"error": "mendelian-conflict", "order": order, "raw": raw}
+            raise
+    # the client's script: tables A (and B) live on the SAME ReadSet and Pedigree objects
+    params = {"A": inst, "B": {**inst, **(tableB or {})}}
+    tables, out = {}, {}
+    for tb, op in (script or CLASSIC):
+        if op == "new":
+            pi = params[tb]
+            out[tb] = {"answers": [], "order": order,
+                       "raw": raw if tb == "A" else {**raw, "geno": pi["geno"], "recomb": pi["recomb"]}}
+            try:
+                tables[tb] = PedigreeDPTable(rs, pi["recomb"], ped, pi["mode"] == "distrust", positions)
+            except RuntimeError as e:
+                if "Mendelian conflict" not in str(e):
+                    raise
+                out[tb]["error"] = "mendelian-conflict"
+        elif op == "del":
+            tables.pop(tb, None)
+        elif tb in tables:
+            out[tb]["answers"].append([op, query(tables[tb], op, inst["nind"])])
+    tables.clear()
+    for tb, o in out.items():
+        if "error" in o:
+            o.pop("answers")
+        else:
+            o.update(first_answers(o["answers"]))
+    res = out["A"]
+    if "B" in out:
+        res["B"] = out["B"]
+    return res
 
 
 def gen_big(rng):
@@ -476,18 +587,54 @@ def check_superreads(inst, impl):
     return fails
 
 
+def sr_by_column(inst, superreads):
+    """[[allele0, allele1] per individual] per column — the model's form of the super reads"""
+    return [[[dict(superreads[i][0]).get(c), dict(superreads[i][1]).get(c)] for i in range(inst["nind"])]
+            for c in range(inst["ncols"])]
+
+
 # ------------------------------------------------------------------------------------------------
 
 def run(ctx):
     rng = ctx.rng
-    pending = []   # (inst, impl, requests index range)
+    pending = []   # one entry per (table, view of its answers): dict(inst, impl, raw, brute, case, req={op: index}, …)
     reqs = []
 
-    def submit(inst_raw, brute):
+    def case_of(inst, qx):
+        return {"instance": {**model_inst(inst), "mode": inst["mode"], "use_positions": inst.get("use_positions", True),
+                             **({"offgrid": inst["offgrid"]} if inst.get("offgrid") else {})}, **qx}
+
+    def enqueue(inst, impl, raw, brute, case, share=None, note="", exact=True, queriesB=None, answers_key="answers"):
+        """requests of one table's answers; `share` = the entry of the same raw input whose mkinst / brute / ckpt
+        answers are reused (the other views of one table; a second table constructed with the same parameters, whose
+        accessor calls travel as `queriesB` in the first one's `c01.ckpt` request)"""
+        req = dict(share["req"]) if share else {}
+
+        def add(name, **kw):
+            req[name] = len(reqs)
+            reqs.append({"op": "c01." + name, "raw": raw, **kw})
+        if not share:
+            add("mkinst")
+            if brute:
+                add("brute")
+            # with `queries` the answer carries the model's DP value (`cost`) as well
+            add("ckpt", queries=[op for op, _ in impl.get("answers") or []],
+                **({"queriesB": queriesB} if queriesB is not None else {}))
+        if "error" not in impl:
+            add("eval", beta=[bool(x) for x in impl["partition"]], tau=impl["tau"])
+        e = {"inst": inst, "impl": impl, "raw": raw, "brute": brute and "brute" in req, "case": case, "req": req,
+             "note": note, "exact": exact, "answers_key": answers_key}
+        pending.append(e)
+        return e
+
+    def submit(inst_raw, brute, script=None, tableB=None):
+        if script is None:
+            script, tableB = gen_script(rng, inst_raw)
+        qx = {} if script == CLASSIC else {"queries": script, **({"tableB": tableB} if tableB is not None else {})}
         ctx.inflight({"instance": {**model_inst(inst_raw), "mode": inst_raw["mode"],
                                    "use_positions": inst_raw.get("use_positions", True),
-                                   **({k: inst_raw[k] for k in ("reuse", "offgrid") if inst_raw.get(k)})}})
-        impl = run_impl(inst_raw)
+                                   **({k: inst_raw[k] for k in ("reuse", "offgrid") if inst_raw.get(k)})}, **qx})
+        impl = run_impl(inst_raw, script, tableB)
         inst = reorder(inst_raw, impl["order"])
         ctx.evaluated()
         ncov = max([0] + [sum(1 for r in inst["reads"] if r["first"] <= c <= r["last"]) for c in range(inst["ncols"])])
@@ -504,17 +651,40 @@ def run(ctx):
         pm = py_mkinst(raw)
         if pm != mi:
             ctx.disagree("c01.mkinst(python conversion vs generator's column form)", {"raw": raw}, mi, pm)
-        start = len(reqs)
-        reqs.append({"op": "c01.mkinst", "raw": raw})
-        reqs.append({"op": "c01.cost", "raw": raw})
-        if "error" not in impl:
-            reqs.append({"op": "c01.eval", "raw": raw, "beta": [bool(x) for x in impl["partition"]], "tau": impl["tau"]})
-        if brute:
-            reqs.append({"op": "c01.brute", "raw": raw})
-        reqs.append({"op": "c01.ckpt", "raw": raw})
-        pending.append((inst, impl, start, brute, raw))
+        implB = impl.pop("B", None)
+        tabs = [("A", inst, impl, raw)]
+        if implB is not None:
+            tabs.append(("B", {**inst, **(tableB or {})}, implB, implB.pop("raw")))
+            ctx.dist("tables_on_one_readset", "2, B: " + ("same parameters" if not tableB else
+                                                          "other " + "/".join(sorted(tableB))))
+        else:
+            ctx.dist("tables_on_one_readset", "1")
+        mainA = None
+        for tb, ti, timpl, traw in tabs:
+            case = case_of(inst, {**qx, **({"table": tb} if implB is not None else {})})
+            if tb == "A":
+                sameB = implB is not None and not tableB
+                main = mainA = enqueue(ti, timpl, traw, brute, case,
+                                       queriesB=[op for op, _ in implB.get("answers") or []] if sameB else None)
+            elif not tableB:
+                main = enqueue(ti, timpl, traw, brute, case, share=mainA, answers_key="answersB")
+            else:
+                main = enqueue(ti, timpl, traw, brute, case)
+            if "error" in timpl:
+                continue
+            ops = [op for op, _ in timpl["answers"]]
+            ctx.dist("accessor_calls_on_one_table", len(ops))
+            ctx.dist("first_accessor_called", ops[0])
+            ctx.dist("partition_asked", ("before" if ops.index("part") < ops.index("sr") else "after") + " the super reads, "
+                     + ("once" if ops.count("part") == 1 else "repeatedly"))
+            # every other combination of answers the client may hold must satisfy the property as well
+            for note, view in other_views(timpl["answers"]):
+                ctx.dist("accessor_answers", "an accessor answered differently on a later call")
+                enqueue(ti, {**view, "order": timpl["order"]}, traw, brute, case, share=main, note=" [" + note + "]",
+                        exact=False)
         if len(ctx.samples) < 3 and inst["ncols"] >= 2 and len(inst["reads"]) >= 3:
-            ctx.sample({"instance": mi, "impl": {k: v for k, v in impl.items() if k != "order"}})
+            ctx.sample({"instance": mi, "impl": {k: v for k, v in impl.items() if k not in ("order", "answers")},
+                        "accessor_calls": script})
         if len(reqs) >= 300:
             flush()
 
@@ -522,48 +692,47 @@ def run(ctx):
         if not reqs:
             return
         ans = ask_bounded(ctx.model, reqs)
-        for inst, impl, start, brute, raw in pending:
-            case = {"instance": {**model_inst(inst), "mode": inst["mode"],
-                                 "use_positions": inst.get("use_positions", True),
-                                 **({"offgrid": inst["offgrid"]} if inst.get("offgrid") else {})}}
-            if ans[start].get("inst") != model_inst(inst):
-                ctx.disagree("c01.mkinst", {**case, "raw": raw}, model_inst(inst), ans[start])
+        for e in pending:
+            inst, impl, raw, brute, case, req, note = (e[k] for k in ("inst", "impl", "raw", "brute", "case", "req", "note"))
+            if ans[req["mkinst"]].get("inst") != model_inst(inst):
+                ctx.disagree("c01.mkinst", {**case, "raw": raw}, model_inst(inst), ans[req["mkinst"]])
                 continue
-            start += 1
-            mcost = ans[start]["cost"]
-            ck = ans[start + (1 if "error" in impl else 2) + (1 if brute else 0)]
+            ck = ans[req["ckpt"]]
+            mcost = ck["cost"]
             if "error" in impl:
                 if ck.get("path") is not None:
                     ctx.disagree("c01.ckpt(path)", case, "mendelian-conflict", ck)
                 if mcost is not None:
                     ctx.disagree("c01.cost", case, "mendelian-conflict", mcost)
-                    if brute and ans[start + 1]["cost"] is not None:
+                    if brute and ans[req["brute"]]["cost"] is not None:
                         ctx.fail("solver raised 'Mendelian conflict' but a feasible solution exists "
-                                 f"(true minimum {ans[start + 1]['cost']})", case, key="spurious-conflict")
+                                 f"(true minimum {ans[req['brute']]['cost']})", case, key="spurious-conflict")
                 continue
-            ev = ans[start + 1]
+            ev = ans[req["eval"]]
             if mcost != impl["cost"]:
                 ctx.disagree("c01.cost", case, impl["cost"], mcost)
+            shown = {k: v for k, v in impl.items() if k != "answers"}
             if ev["cost"] != impl["cost"]:
                 ctx.fail(f"returned partition/transmission evaluate to {ev['cost']} under the MEC objective, "
-                         f"reported cost is {impl['cost']}", {**case, "impl": impl}, key="witness-cost")
+                         f"reported cost is {impl['cost']}" + note, {**case, "impl": shown}, key="witness-cost")
             if brute:
-                b = ans[start + 2]["cost"]
+                b = ans[req["brute"]]["cost"]
                 if b != impl["cost"]:
-                    ctx.fail(f"reported cost {impl['cost']} but the true minimum (plain enumeration) is {b}",
-                             {**case, "impl": impl}, key="not-optimal")
+                    ctx.fail(f"reported cost {impl['cost']} but the true minimum (plain enumeration) is {b}" + note,
+                             {**case, "impl": shown}, key="not-optimal")
             elif mcost is not None and impl["cost"] != mcost:
                 # dp_optimal: the model's value IS the optimum; the instance is the replay
-                ctx.fail(f"reported cost {impl['cost']} but the proved-optimal model DP gives {mcost}",
-                         {**case, "impl": impl}, key="not-optimal")
+                ctx.fail(f"reported cost {impl['cost']} but the proved-optimal model DP gives {mcost}" + note,
+                         {**case, "impl": shown}, key="not-optimal")
             for f in check_superreads(inst, impl):
-                ctx.fail("super-read: " + f, {**case, "impl": impl}, key="nontie-allele")
+                ctx.fail("super-read: " + f + note, {**case, "impl": shown}, key="nontie-allele")
             # correspondence of super reads (tie flags included)
             msr = ev["superreads"]
-            isr = [[[dict(impl["superreads"][i][0]).get(c), dict(impl["superreads"][i][1]).get(c)]
-                    for i in range(inst["nind"])] for c in range(inst["ncols"])]
+            isr = sr_by_column(inst, impl["superreads"])
             if msr != isr:
                 ctx.disagree("c01.eval.superreads", case, isr, msr)
+            if not e["exact"]:
+                continue      # a later answer that differs from the first one: reported through `c01.queries` below
             # compute_table as coded (stored backtrace tables, sqrt(n) check-pointing, backtrace by recomputation,
             # first minimum in Gray-code order): the very index path's partition / transmission vector / super reads
             ctx.dist("checkpoint_spacing_k", ck.get("k"))
@@ -581,6 +750,17 @@ def run(ctx):
                                  "in visiting order)" if optimal else "c01.ckpt(witness)", case,
                                  {"partition": impl["partition"], "tau": impl["tau"], "superreads": isr},
                                  {"partition": ck["beta"], "tau": ck["tau"], "superreads": ck["superreads"], "k": ck["k"]})
+                # the result object (Model/C01Query.lean, `Table.run`): EVERY accessor call of the client's sequence,
+                # whatever its position and however often repeated, answers what the model's object answers
+                ian = [{"q": "cost", "cost": v} if op == "cost" else {"q": "part", "beta": [bool(x) for x in v]} if op == "part"
+                       else {"q": "sr", "superreads": sr_by_column(inst, v["superreads"]), "tau": v["tau"]}
+                       for op, v in impl["answers"]]
+                man = ck.get(e["answers_key"])
+                if man != ian:
+                    k = next((n for n, (x, y) in enumerate(zip(ian, man or [])) if x != y), 0)
+                    ctx.disagree(f"c01.queries(accessor call #{k} '{ian[k]['q']}' of the sequence "
+                                 f"{[a['q'] for a in ian]} does not answer what the result object holds)", case,
+                                 ian[k], (man or [None] * len(ian))[k])
             ctx.validated()
         pending.clear(); reqs.clear()
 
@@ -635,7 +815,7 @@ def run(ctx):
             run_u32([inst])
             continue
         small = len(inst["reads"]) <= 6 and inst["ncols"] <= 4 and len(inst["trios"]) <= 1
-        submit(inst, brute=small)
+        submit(inst, brute=small, script=c.get("queries") or CLASSIC, tableB=c.get("tableB"))
     flush()
     if ctx.replay:
         return
@@ -673,28 +853,34 @@ def run(ctx):
             r = rng.choice(reads); e = rng.choice(r["entries"]); e[1] = 1 - e[1]
         inst = {"ncols": ncols, "reads": reads, "nind": 1, "trios": [], "geno": [[[None, 0, None] for _ in range(ncols)]],
                 "recomb": [0] * ncols, "mode": "trusted", "use_positions": True}
-        ctx.inflight({"instance": {**model_inst(inst), "mode": "trusted", "use_positions": True}})
-        impl = run_impl(inst)
+        script = [st for st in gen_script(rng, inst)[0] if st[0] == "A"]     # one table (2^20 rows each), random calls
+        qx = {"queries": script}
+        ctx.inflight({"instance": {**model_inst(inst), "mode": "trusted", "use_positions": True}, **qx})
+        impl = run_impl(inst, script)
         ctx.evaluated(); ctx.dist("max_coverage", nreads); ctx.dist("deep_planted", f"{n_err} errors")
         raw = impl.pop("raw")
         inst = reorder(inst, impl["order"])
         planted = [planted[k] for k in impl["order"]]
-        deep.append((inst, impl, planted, raw))
+        deep.append((inst, impl, planted, raw, qx, ""))
+        for note, view in other_views(impl["answers"]):
+            deep.append((inst, view, planted, raw, qx, " [" + note + "]"))
     dreqs = []
-    for inst, impl, planted, raw in deep:
+    for inst, impl, planted, raw, qx, note in deep:
         dreqs.append({"op": "c01.eval", "raw": raw, "beta": [bool(x) for x in impl["partition"]], "tau": impl["tau"]})
         dreqs.append({"op": "c01.eval", "raw": raw, "beta": [bool(x) for x in planted], "tau": [0] * inst["ncols"]})
     dans = ctx.model.ask_many(dreqs)
-    for k, (inst, impl, planted, raw) in enumerate(deep):
-        case = {"instance": {**model_inst(inst), "mode": "trusted", "use_positions": True}}
+    for k, (inst, impl, planted, raw, qx, note) in enumerate(deep):
+        case = {"instance": {**model_inst(inst), "mode": "trusted", "use_positions": True}, **qx}
+        shown = {k2: v for k2, v in impl.items() if k2 != "answers"}
         ev, pl = dans[2 * k], dans[2 * k + 1]
         if ev["cost"] != impl["cost"]:
             ctx.fail(f"returned partition/transmission evaluate to {ev['cost']} under the MEC objective, reported cost is "
-                     f"{impl['cost']} ({len(inst['reads'])} reads cover one column)", {**case, "impl": impl}, key="witness-cost")
+                     f"{impl['cost']} ({len(inst['reads'])} reads cover one column)" + note, {**case, "impl": shown},
+                     key="witness-cost")
         if pl["cost"] is not None and impl["cost"] > pl["cost"]:
-            ctx.fail(f"reported cost {impl['cost']} exceeds the cost {pl['cost']} of the planted bipartition: not the minimum",
-                     {**case, "impl": impl, "planted": planted}, key="not-optimal")
-        isr = [[[dict(impl["superreads"][i][0]).get(c), dict(impl["superreads"][i][1]).get(c)] for i in range(1)] for c in range(inst["ncols"])]
+            ctx.fail(f"reported cost {impl['cost']} exceeds the cost {pl['cost']} of the planted bipartition: not the minimum"
+                     + note, {**case, "impl": shown, "planted": planted}, key="not-optimal")
+        isr = sr_by_column(inst, impl["superreads"])
         if ev["superreads"] != isr:
             ctx.disagree("c01.eval.superreads", case, isr, ev["superreads"])
         ctx.nontrivial(json.dumps(model_inst(inst), sort_keys=True))
